@@ -175,6 +175,11 @@ where
         while let Ok((item, remainder)) =
             <T as ZvtSerializerImpl<L, E, TE>>::deserialize_tagged(bytes, tag.clone())
         {
+            // An element which consumes nothing would be found over and over
+            // again: stop instead of looping forever.
+            if remainder.len() == bytes.len() {
+                break;
+            }
             items.push(item);
             bytes = remainder;
         }
